@@ -2,6 +2,7 @@ import A2lVerif.Lemmas.Sort15
 import A2lVerif.Lemmas.Sort15Order
 import A2lVerif.Lemmas.Sort15Iter
 import A2lVerif.Lemmas.Sort15Push
+import A2lVerif.Lemmas.Sort15Hist
 import A2lVerif.Props.C14
 /-!
 # C15 — sort_new_items(): stable placement over arbitrarily long edit histories
@@ -184,6 +185,61 @@ theorem push_keeps_placed_order_partial (m : RModule) (i : Nat) (e : Elem) (he :
     (writeOrder (pushNew m i e).toModule).filter placed = (writeOrder m.toModule).filter placed :=
   push_keeps_placed_order m i e he hnd
 
+/-! ### histories: pushes and calls interleaved, any number of either -/
+
+/-- the operations of a history, and how they run -/
+example (ops : List Op) (m : RModule) : runOps (.sni :: ops) m =
+    (match sortNewItems m with | .panic => .panic | .ok m1 => runOps ops m1) := rfl
+example (ops : List Op) (m : RModule) (i : Nat) (e : Elem) : runOps (.push i e :: ops) m = runOps ops (pushNew m i e) := rfl
+/-- what the caller of `push` respects: no position, a (tag, name, content) that is not in the module yet, a list (not an
+    `Option` field) as target -/
+example (ops : List Op) (m : RModule) (i : Nat) (e : Elem) : Admissible (.push i e :: ops) m =
+    (e.uid = 0 ∧ e.key ∉ m.toModule.all.map Elem.key ∧ (∀ r, m.sections[i]? = some r → ¬ isSingle r.rule) ∧
+      Admissible ops (pushNew m i e)) := rfl
+example (ops : List Op) (m : RModule) : Admissible (.sni :: ops) m =
+    (∀ m1, sortNewItems m = .ok m1 → Admissible ops m1) := rfl
+
+/-- the invariant survives such a push -/
+theorem iterInv_push_fresh (m : RModule) (i : Nat) (e : Elem) (hi : IterInv m) (he : e.uid = 0)
+    (hfresh : e.key ∉ m.toModule.all.map Elem.key) (hg : ∀ r, m.sections[i]? = some r → ¬ isSingle r.rule) :
+    IterInv (pushNew m i e) :=
+  iterInv_push m i e hi he hfresh hg
+
+/-- ... hence every history that returns -/
+theorem iterInv_history (ops : List Op) (m m' : RModule) (h : runOps ops m = .ok m') (hi : IterInv m)
+    (ha : Admissible ops m) : IterInv m' :=
+  iterInv_runOps ops m m' h hi ha
+
+/-- **any number of repeated insert / `sort_new_items()` cycles, in any interleaving — as long as every call returns,
+    i.e. no uid overflows — never changes the relative output order of the elements that were placed at the start**:
+    after a history with k calls they are written in the same sequence, with nothing but their uids (times 2^k) changed.
+    The elements a call placed on the way are covered from that call on (the invariant holds there: `iterInv_history`). -/
+theorem placed_order_stable_history_partial (ops : List Op) (m m' : RModule) (h : runOps ops m = .ok m')
+    (hi : IterInv m) (ha : Admissible ops m) :
+    (writeOrder m'.toModule).filter (placedK (countSni ops)) =
+      ((writeOrder m.toModule).filter placed).map (dblK (countSni ops)) :=
+  runOps_placed_stable ops m m' h hi ha
+
+/-- the guard on the target cannot be dropped: pushing a second element into an `Option` field breaks the invariant
+    (and with it the growth law: `iterate_uids_partial_needs_wf`) -/
+theorem push_into_single_breaks_invariant :
+    ∃ (m : RModule) (e : Elem), IterInv m ∧ e.uid = 0 ∧ e.key ∉ m.toModule.all.map Elem.key ∧ ¬ IterInv (pushNew m 0 e) := by
+  refine ⟨⟨[⟨.threaded, ⟨.single, [⟨"A2ML", "x", 1, 0, 0⟩]⟩⟩], []⟩, ⟨"A2ML", "y", 0, 0, 1⟩, ?_, rfl, ?_, ?_⟩
+  · refine ⟨by simp [Module.all, RModule.toModule], ?_, ?_⟩
+    · intro r hr _
+      simp only [List.mem_singleton] at hr
+      subst hr
+      simp
+    · intro r hr ho
+      simp only [List.mem_singleton] at hr
+      subst hr
+      cases ho
+  · simp [Module.all, RModule.toModule, Elem.key]
+  · intro hi
+    have := hi.singles ⟨.threaded, ⟨.single, [⟨"A2ML", "x", 1, 0, 0⟩, ⟨"A2ML", "y", 0, 0, 1⟩]⟩⟩
+      (by simp [pushNew, pushSec]) (.inl rfl)
+    simp at this
+
 example (r : RSection) (rs : List RSection) (e : Elem) :
     pushSec (r :: rs) 0 e = { r with sec := { r.sec with elems := r.sec.elems ++ [e] } } :: rs := rfl
 
@@ -225,6 +281,32 @@ example : SinglesWF demoM ∧ PlacedDistinct demoM ∧ ∃ m', sortNewItems demo
     intro e he
     simp [demoM, Module.all, RModule.toModule] at he
     rcases he with rfl | rfl | rfl <;> simp [u32max]
+
+/-- non-vacuity of the history theorem: a push into the MEASUREMENT list of `demoM` followed by a call is admissible,
+    starts in the invariant, and returns -/
+example : IterInv demoM ∧ Admissible [.push 0 ⟨"MEASUREMENT", "n2", 0, 0, 7⟩, .sni] demoM ∧
+    ∃ m', runOps [.push 0 ⟨"MEASUREMENT", "n2", 0, 0, 7⟩, .sni] demoM = .ok m' := by
+  refine ⟨?_, ⟨rfl, ?_, ?_, fun _ _ => trivial⟩, ?_⟩
+  · apply iterInv_of_distinct
+    · simp [demoM, Module.all, RModule.toModule, Elem.key]
+    · intro r hr hs
+      simp [demoM] at hr
+      rcases hr with rfl | rfl <;> simp at hs
+    · intro a ha b hb hne he
+      simp [demoM, Module.all, RModule.toModule] at ha hb
+      rcases ha with rfl | rfl | rfl <;> rcases hb with rfl | rfl | rfl <;> simp_all
+  · simp [demoM, Module.all, RModule.toModule, Elem.key]
+  · intro r hr
+    simp [demoM] at hr
+    subst hr
+    simp [isSingle]
+  · show ∃ m', (match sortNewItems (pushNew demoM 0 ⟨"MEASUREMENT", "n2", 0, 0, 7⟩) with
+        | .panic => Out.panic | .ok m1 => runOps [] m1) = Out.ok m'
+    obtain ⟨m1, h1⟩ := sni_ok_partial (pushNew demoM 0 ⟨"MEASUREMENT", "n2", 0, 0, 7⟩) (by
+      intro e he
+      simp [demoM, pushNew, pushSec, Module.all, RModule.toModule] at he
+      rcases he with rfl | rfl | rfl | rfl <;> simp [u32max])
+    exact ⟨m1, by rw [h1]; rfl⟩
 
 /-- **k consecutive calls**: as long as no call overflows, a placed uid grows exactly by the factor 2^k, for every
     section rule (object lists, optional singles, IF_DATA / USER_RIGHTS, comments).
